@@ -216,12 +216,14 @@ func rulesC17(p *Prog, r *Report) {
 		n := 0
 		for _, st := range fieldStores(fn, "TimeWeightedAverage", "CurrentIndex") {
 			bo, ok := st.Val.(*ssa.BinOp)
-			if !ok || bo.Op != token.ADD {
+			isOne := false
+			if c, isC := st.Val.(*ssa.Const); isC && c.Value != nil && c.Value.ExactString() == "1" {
+				isOne = true // first sample of a new record: cursor 1 is outside a window of one
+			}
+			if (!ok || bo.Op != token.ADD) && !isOne {
 				if !isZeroValue(st.Val) {
-					if c, isC := st.Val.(*ssa.Const); !(isC && c.Value != nil && c.Value.ExactString() == "1") {
-						r.Instance("R17.3")
-						r.Fail("R17.3", fname(fn)+" CurrentIndex assignment", "CurrentIndex is assigned something other than 0, 1 or CurrentIndex+1", p.instrPos(st), nil)
-					}
+					r.Instance("R17.3")
+					r.Fail("R17.3", fname(fn)+" CurrentIndex assignment", "CurrentIndex is assigned something other than 0, 1 or CurrentIndex+1", p.instrPos(st), nil)
 				}
 				continue
 			}
@@ -229,6 +231,9 @@ func rulesC17(p *Prog, r *Report) {
 			r.Instance("R17.3")
 			r.FuncsSeen[fname(fn)] = true
 			construct := fmt.Sprintf("%s increment #%d", fname(fn), n)
+			if isOne {
+				construct = fmt.Sprintf("%s cursor set to 1 #%d", fname(fn), n)
+			}
 			pass, _ := p.PassEdges(wrap, fn, 0)
 			cut := map[Edge]bool{}
 			for e := range pass {
